@@ -54,7 +54,9 @@ impl<E> ClientEventQueue<E> {
     }
 
     pub(super) fn clear(&mut self) {
-        while let Some((_, messages)) = self.map.pop_first() {
+        while let Some((_, mut messages)) = self.map.pop_first() {
+            // The vector is reused for later ticks, so drop its messages.
+            messages.clear();
             self.buffer.push(messages);
         }
     }
